@@ -271,7 +271,8 @@ func (c *loadC) Exec(op string) string {
 	})
 }
 
-var loadTplParts = []string{"run", " ", "-", "{{.PC_REPLICA_NUM}}", "{{.V}}", "{{.G}}", "{{.L}}", "{{.MISSING}}", "/srv", "x", "_", ":", "8", "{{.PORT}}"}
+var loadTplParts = []string{"run", " ", "-", "{{.PC_REPLICA_NUM}}", "{{.V}}", "{{.G}}", "{{.L}}", "{{.MISSING}}", "/srv", "x", "_", ":", "8", "{{.PORT}}",
+	"{{ .PC_REPLICA_NUM }}", "{{ .L }}"}
 
 func genTpl(r *rand.Rand, allowEmpty bool) string {
 	if allowEmpty && r.Intn(3) == 0 {
@@ -312,7 +313,7 @@ func genLProbe(r *rand.Rand) string {
 		return "e/" + Hex(genTpl(r, false)) + "/" + Hex(wd)
 	case 1:
 		port := []string{"", "80", "{{.PORT}}", "8{{.PC_REPLICA_NUM}}", "x", "0", "65536", "{{.V}}"}[r.Intn(8)]
-		return "h/" + Hex(genTpl(r, true)) + "/" + Hex([]string{"", "/", "/h{{.PC_REPLICA_NUM}}", "/{{.L}}"}[r.Intn(4)]) + "/" +
+		return "h/" + Hex(genTpl(r, true)) + "/" + Hex([]string{"", "/", "/h{{.PC_REPLICA_NUM}}", "/{{.L}}", "/s{{ .PC_REPLICA_NUM }}"}[r.Intn(5)]) + "/" +
 			Hex([]string{"", "https", "{{.G}}"}[r.Intn(3)]) + "/" + Hex(port)
 	}
 	return "~"
